@@ -11,6 +11,7 @@ import (
 	"fmt"
 	"time"
 
+	"github.com/rs/zerolog"
 	"verifharness/hlib"
 	. "verifharness/hlib"
 	"verifharness/oracle"
@@ -125,6 +126,7 @@ func run(c *Ctx) {
 				insertCaller(&cs.Steps[g.R.Intn(len(cs.Steps))], g.R)
 			}
 		}
+		varyDerivation(cs, g)
 		emit(cs)
 	}
 }
@@ -147,6 +149,47 @@ func insertCaller(st *progs.Step, r *Rng) {
 	cops := append([]progs.Cop{}, st.Cops[:at]...)
 	cops = append(cops, progs.CallerCop(callerSkips[r.Intn(len(callerSkips))]))
 	st.Cops = append(cops, st.Cops[at:]...)
+}
+
+// varyDerivation (drawn after everything else of the case): the parts of a program that change neither the bytes nor
+// the hook list the model predicts, but are other ways through the library: a stretch of the chain derived while the
+// logger is Disabled (Level(Disabled) ... Level(x), or a root made by Nop().Output(w)); a LevelHook among the hooks of
+// a step; the event started through the level's own method / the io.Writer bridge / Print instead of WithLevel.
+func varyDerivation(cs *progs.Case, g *progs.Gen) {
+	r := g.R
+	if r.Chance(12) && len(cs.Steps) > 0 {
+		i := r.Intn(len(cs.Steps))
+		cs.Steps[i].Mute = 1
+		if j := i + 1 + r.Intn(len(cs.Steps)-i); j < len(cs.Steps) {
+			cs.Steps[j].Mute = 2
+		}
+	}
+	if r.Chance(6) {
+		cs.Root = 1
+	}
+	if r.Chance(12) && len(cs.Steps) > 0 {
+		if st := &cs.Steps[r.Intn(len(cs.Steps))]; !st.Update {
+			st.Cops = append(st.Cops, randomLevelHook(g, 25))
+		}
+	}
+	if r.Chance(25) {
+		cs.Entry = 1 + r.Intn(4)
+	}
+}
+
+// randomLevelHook: each of the eight fields left unset with probability unsetPct %, else a hook that notes its run
+// and adds a field named after its level
+func randomLevelHook(g *progs.Gen, unsetPct int) progs.Cop {
+	co := progs.Cop{K: "levelhook"}
+	for i := range co.LH {
+		if g.R.Chance(unsetPct) {
+			continue
+		}
+		g.MarkID++
+		p := progs.Prim{M: "Int", V: i - 1}
+		co.LH[i] = []progs.Op{{K: "mark", ID: g.MarkID}, {K: "key", Key: []byte(fmt.Sprintf("lh%d_%d", g.MarkID, i-1)), P: &p}}
+	}
+	return co
 }
 
 // fieldsPrim: how a value given to Fields() is taken by its type switch (strings and []string have their own
@@ -204,6 +247,126 @@ func runC01(c *Ctx, emit func(cs *progs.Case) progs.Obs) {
 			cs.Steps = []progs.Step{{Cops: []progs.Cop{{K: "op", O: &co}}}}
 			emit(cs)
 			c.Hist("c01_iface_shape", sh.Name)
+		}
+	}
+	runC01Texts(c, emit)
+	runC01Times(c, emit)
+}
+
+// runC01Texts: texts the library takes from somewhere else than a string argument and writes as a JSON string: the
+// type name Type() logs (reflect.Type.String(): unnamed struct types carry their field tags as quoted Go strings,
+// so quote and backslash characters; any letters in field names; generic instantiations), the level text
+// (LevelFieldMarshalFunc), the caller text (CallerMarshalFunc: a Windows path).  Through every place such a field
+// can be added: event, Dict, Object / EmbedObject marshaler, Func callback, context, hook.
+func runC01Texts(c *Ctx, emit func(cs *progs.Case) progs.Obs) {
+	everywhere := func(p *progs.Prim, inContext bool) *progs.Case {
+		cs := &progs.Case{S: progs.DefaultSettings(), Level: 1, Msg: []byte("m")}
+		after := progs.Prim{M: "Str", V: "x"}
+		kp := func(k string) []progs.Op { return []progs.Op{{K: "key", Key: []byte(k), P: p}} }
+		cs.Ops = []progs.Op{kp("t")[0], {K: "dict", Key: []byte("d"), Sub: kp("dt")}, {K: "object", Key: []byte("o"), Sub: kp("ot")},
+			{K: "embed", Sub: kp("et")}, {K: "func", Sub: kp("ft")}, {K: "key", Key: []byte("after"), P: &after}}
+		st := progs.Step{}
+		if inContext {
+			co := kp("ct")[0]
+			cd := progs.Op{K: "dict", Key: []byte("cd"), Sub: kp("cdt")}
+			st.Cops = append(st.Cops, progs.Cop{K: "op", O: &co}, progs.Cop{K: "op", O: &cd})
+		}
+		st.Cops = append(st.Cops, progs.Cop{K: "hook", Sub: kp("ht")})
+		cs.Steps = []progs.Step{st}
+		return cs
+	}
+	for _, v := range progs.AwkwardTypeValues() {
+		emit(everywhere(&progs.Prim{M: "Type", V: v}, progs.ContextHas("Type")))
+		c.Hist("c01_text_source", "type-name")
+	}
+	// the level text and the caller text
+	for i, lv := range []int{-1, 0, 1, 3, 5, 6, 8, 127} {
+		cs := everywhere(&progs.Prim{M: "Str", V: "v"}, true)
+		cs.S.LevelStyle = 4
+		cs.Level = lv
+		progs.CallerText = []string{`C:\src\app "x"\main.go:42`, "src\x00\n.go:1", "\xff\xc0\xaf.go:7\\"}[i%3]
+		cs.Steps[0].Cops = append([]progs.Cop{progs.CallerCop([]int{progs.CallerGlobal, 0, 1}[i%3])}, cs.Steps[0].Cops...)
+		emit(cs)
+		progs.CallerText = progs.DefaultCallerText
+		c.Hist("c01_text_source", "level-and-caller-text")
+	}
+}
+
+// timeEverywhere: one instant through every call that ends in the time encoder: Time, Times, Array.Time, Dict.Time,
+// Fields (time.Time, *time.Time, []time.Time; slice and map), Event.Timestamp(), Context.Time, Context.Timestamp().
+func timeEverywhere(t time.Time, s progs.Settings) *progs.Case {
+	cs := &progs.Case{S: s, Now: t, Level: 1, Msg: []byte("m")}
+	tp := &progs.Prim{M: "Time", V: t}
+	tsp := &progs.Prim{M: "Times", V: []time.Time{t, t}}
+	after := progs.Prim{M: "Str", V: "x"}
+	cs.Ops = []progs.Op{{K: "key", Key: []byte("t"), P: tp}, {K: "key", Key: []byte("ts"), P: tsp},
+		{K: "array", Key: []byte("a"), Sub: []progs.Op{{K: "aelem", P: tp}}},
+		{K: "dict", Key: []byte("d"), Sub: []progs.Op{{K: "key", Key: []byte("dt"), P: tp}}},
+		{K: "fields", KVs: []progs.FieldKV{{Key: []byte("f"), K: "prim", P: tp}, {Key: []byte("fp"), K: "prim", P: tp, Ptr: true}, {Key: []byte("fs"), K: "prim", P: tsp}}},
+		{K: "fields", Via: true, KVs: []progs.FieldKV{{Key: []byte("m"), K: "prim", P: tp}}},
+		{K: "timestamp", When: t},
+		{K: "key", Key: []byte("after"), P: &after}}
+	co := progs.Op{K: "key", Key: []byte("ct"), P: tp}
+	cs.Steps = []progs.Step{{Cops: []progs.Cop{{K: "op", O: &co}, {K: "timestamp", Sub: []progs.Op{{K: "timestamp", When: t}}}}}}
+	return cs
+}
+
+// extremeInstants: time VALUES at the ends of what time.Time carries (the exclusion in the property is about layouts):
+// years with a sign, with more than four digits, at two's-complement widths and at the representable ends; zone
+// offsets beyond a day and beyond two digits of hours; year boundaries that exist only in the zone's wall clock.
+func extremeInstants() (out []time.Time) {
+	for _, y := range progs.ExtremeYears {
+		out = append(out, progs.YearTime(y))
+	}
+	for _, off := range progs.ExtremeZoneOffsets {
+		out = append(out, time.Unix(1700000000, 0).In(time.FixedZone("", off)))
+	}
+	west, east := time.FixedZone("", -3600), time.FixedZone("", 3600)
+	out = append(out,
+		time.Date(0, 1, 1, 0, 0, 0, 0, time.UTC).In(west), time.Date(-1, 12, 31, 23, 59, 59, 999999999, time.UTC).In(east),
+		time.Date(10000, 1, 1, 0, 0, 0, 0, time.UTC).In(west), time.Date(9999, 12, 31, 23, 59, 59, 999999999, time.UTC).In(east),
+		progs.YearTime(-10000).In(time.FixedZone("", 440*3600)), progs.YearTime(10000).In(time.FixedZone("", -440*3600)))
+	return
+}
+
+// runC01Times: every extreme instant through every time call under the default layout, one instant per case; the same
+// instants and a grid of years (every millennium from -70000 to 70000) as slices under further layouts and the UNIX
+// formats.
+func runC01Times(c *Ctx, emit func(cs *progs.Case) progs.Obs) {
+	ext := extremeInstants()
+	for _, t := range ext {
+		emit(timeEverywhere(t, progs.DefaultSettings()))
+		c.Hist("c01_extreme_times", "default layout, one instant everywhere")
+	}
+	var grid []time.Time
+	for y := -70000; y <= 70000; y += 1000 {
+		grid = append(grid, progs.YearTime(y+y/1000%7)) // not only round years
+	}
+	slices := func(ts []time.Time, n int) (out [][]time.Time) {
+		for len(ts) > n {
+			out = append(out, ts[:n])
+			ts = ts[n:]
+		}
+		return append(out, ts)
+	}
+	layouts := []string{time.RFC3339, time.RFC3339Nano, time.RFC1123Z, "06-01-02 03:04:05.000PM -07:00:00", "Mon Jan _2 15:04:05 2006 Z0700",
+		zerolog.TimeFormatUnix, zerolog.TimeFormatUnixMs, zerolog.TimeFormatUnixNano}
+	for li, layout := range layouts {
+		s := progs.DefaultSettings()
+		s.TimeFormat = layout
+		all := append(append([]time.Time{}, ext...), grid...)
+		if li >= 2 && !c.Thorough() {
+			all = ext
+		}
+		for _, ts := range slices(all, 24) {
+			tsp := &progs.Prim{M: "Times", V: ts}
+			cs := &progs.Case{S: s, Level: 1, Msg: []byte("m")}
+			cs.Ops = []progs.Op{{K: "key", Key: []byte("ts"), P: tsp}, {K: "fields", KVs: []progs.FieldKV{{Key: []byte("fs"), K: "prim", P: tsp}}}}
+			for _, t := range ts[:3] {
+				cs.Ops = append(cs.Ops, progs.Op{K: "key", Key: []byte("t"), P: &progs.Prim{M: "Time", V: t}})
+			}
+			emit(cs)
+			c.Hist("c01_extreme_times", "slices under "+layout)
 		}
 	}
 }
